@@ -137,7 +137,7 @@ fn invoked(stage: u8, item: &Out, can_err: bool) -> u32 {
         if !spec.never {
             w.children[id as usize].pend_left = wp;
         }
-        w.ev(Ev::Note(((stage as u32) << 16) | (seq as u32 & 0xffff)));
+        w.ev(Ev::Note(0x8000_0000 | ((stage as u32) << 16) | (seq as u32 & 0xffff)));
         id
     });
     co(|c| c.inv.push((stage, seq, id)));
